@@ -97,6 +97,10 @@ def run(ctx: vlib.Ctx):
         "family 'latename' puts a reference back to the class under construction (Self, its own name, a mutually recursive class) inside every "
         "construct that is compiled as a separate helper function (non-Optional unions, containers of unions, constrained TypeVars, discriminated "
         "unions, literals next to unions, nested holders) x mixin / codec (not nailed) / both x module / function scope, and demands an exact round trip; "
+        "family 'defaults' gives omit_default classes (Config / Config.dialect / call-time dialect / codec default_dialect) default values the "
+        "generated text has to mention: tuples, 1-tuples, nested, variable and optional tuples holding Paths, IP addresses, UUID, Decimal, Fraction, "
+        "dates, Enum and Flag members, arbitrary objects, named tuples, dataclass instances, frozensets, lists, dicts, NaN, via default and "
+        "default_factory, mixin and codec, module and function scope (exact round trip demanded); "
         "family 'identity' instantiates the adversarial shapes the property names (same-qualname local classes, clean_id collisions, functional "
         "Enum/NamedTuple/make_dataclass in a function, bogus __module__, re-bound names, MappingProxyType, defaultdict of a local class, class and "
         "module names shadowing names used by generated code) x class kind x position x entry point. Every schema is built under capture, every "
@@ -147,12 +151,13 @@ def run(ctx: vlib.Ctx):
     res_g, skip_g = run_family(ctx, "grammar", n_grammar, ctx.budget(24, 40), jobs, ctx.budget(10, 25), 8.0)
     res_i, skip_i = run_family(ctx, "identity", n_ident, ctx.budget(12, 20), jobs, ctx.budget(10, 20), 8.0)
     res_l, skip_l = run_family(ctx, "latename", ctx.budget(70, 600), ctx.budget(12, 20), jobs, ctx.budget(10, 25), 8.0)
-    skip_i = skip_i + skip_l
+    res_d, skip_d = run_family(ctx, "defaults", ctx.budget(50, 400), ctx.budget(10, 16), jobs, ctx.budget(10, 25), 8.0)
+    skip_i = skip_i + skip_l + skip_d
     if skip_g or skip_i:
         ctx.notes.append(f"schemas skipped because a call did not return in time (library loops on some inputs; not a C17 matter): grammar {skip_g}, identity {skip_i}")
     ctx.hist("schemas", "skipped-timeout", len(skip_g) + len(skip_i))
 
-    all_res = [("grammar", r) for r in res_g] + [("identity", r) for r in res_i] + [("latename", r) for r in res_l]
+    all_res = [("grammar", r) for r in res_g] + [("identity", r) for r in res_i] + [("latename", r) for r in res_l] + [("defaults", r) for r in res_d]
     reach = sum(r.get("reachable", 0) for _, r in all_res)
     unknown = sum(r.get("unknown_fns", 0) for _, r in all_res)
     ctx.hist("functions", "reachable-from-entry-points(checked against fn.__globals__)", reach)
